@@ -1,6 +1,34 @@
 prop("C08", pkg="c08",
-     rule="TODO",
+     rule="Each rapid case is either (90%) a target: a tgen struct type, a value, a protocol (binary strict / non-strict / compact), 1-3 random content trees used as "
+          "undeclared fields (every thrift type, nesting <= 3, ids outside every declared id incl. ids <= 0 and around 64/128), 0-3 random byte strings, 0-6 byte "
+          "flips and 1-3 trailing bytes - from which the probes are derived deterministically: the valid encoding (rendered through the package's own Writer), "
+          "EVERY proper prefix through Unmarshal (and every third through a Decoder over bytes.Reader / bytes.Buffer / bufio / plain / one-byte readers), every "
+          "list/set/map/string header with its count replaced by -1, -2^31, n-1, n+1, 2^24, 2^31-1, 2^31, 2^35, 2^63, every field header with 2 other type codes "
+          "and 3 other ids, the flipped and random inputs, the unknown fields inserted at every field boundary of every struct node (<= 80 per case), the trailing "
+          "bytes, every required field removed in turn, and every field (and non-empty container element type) replaced by another wire type under strict mode; "
+          "or (10%) 1-12 random Reader method calls on random bytes. All library calls run in a supervised worker process under RLIMIT_AS (16 GiB from the driver, "
+          "4 GiB self-imposed in the worker); allocation is the runtime.MemStats.TotalAlloc delta, measured per probe group and per call when a group exceeds 64 MiB. "
+          "While a defect class is listed as known the probes that would only re-trigger it are not generated (negative container counts; counts 2^24..2^31-1; for the "
+          "binary protocol cut offsets that make the reader consume stale scratch bytes) and are counted in excluded_known; failures matching a listed class are "
+          "counted there too. evaluations = library decode calls (probes). Non-trivial = prefix of length > 0, any count mutation, flip, insertion not at the very "
+          "first boundary, trailing/missing/mismatch probe; distinct = FNV-64 of (type descriptor, protocol, probe group, input bytes).",
      quick=dict(shards=16, scale=1, timeout=900),
      thorough=dict(shards=16, scale=10, timeout=3000),
      vlimit_gb=16,
-     technique="TODO", level_text="TODO", level_note="TODO", assumptions=[])
+     technique="property-based testing (rapid) + exhaustive prefix/header-mutation enumeration per generated encoding, validity and metamorphic oracles, "
+               "out-of-process supervision with address-space limit and stall watchdog",
+     level_text="Exploration: ~0.8 M decode calls per quick run on the current tree (several millions once the listed defects are repaired, because the case count is "
+                "raised when no worker restarts are needed): no panic or fatal fault; every proper prefix of a valid encoding gives errors.Is(err, io.ErrUnexpectedEOF) "
+                "(io.EOF for empty input); negative / oversized counts give an error; TotalAlloc delta <= 64 MiB for inputs <= 4 KiB; undeclared fields of any type and "
+                "nesting leave the decoded value unchanged; trailing bytes, missing required fields (*MissingField) and strict-mode wire type changes (*TypeMismatch) are "
+                "reported. A violation is reported with the case and the probe id. 'Never stalls' is not part of the property: a call exceeding 1.5 s (10 s thorough) is "
+                "killed, labelled and not judged.",
+     level_note="Trusted base: harness/tgen (types, values, Writer-based renderer with header offsets) and the worker supervision in harness/c08. Clause (b) is asserted only "
+                "for prefixes of valid encodings; the id reported inside *MissingField is not asserted (label missing.reported-id-differs); non-strict handling of a wrong "
+                "wire type is checked for totality only. While KF-C08-001/002/005 are 'known' the size-rejection and binary EOF clauses are exercised only through "
+                "probes that cannot re-trigger them (see excluded_known) - they regain full strength when the entries are flipped to 'fixed' (verified against a scratch "
+                "tree with the proposed fixes).",
+     assumptions=["a valid encoding is what the package's own Writer produces for the value's logical content (enum fields only on int32 kinds here; C13 covers the others)",
+                  "every thrift element occupies at least one byte, so a count above the remaining input can only be rejected",
+                  "allocation bound: 64 MiB per call for inputs <= 4 KiB (DESIGN C07/C08); hostile sizes used are >= 2^24",
+                  "stalls (a loop over a wire-controlled count at end of input) are recorded but not judged"])
